@@ -125,7 +125,7 @@ pub fn all() -> Vec<PropDef> {
     v.push(PropDef {
         miri: None,
         id: "C09", level: "exploration", driver: "D2 deterministic executor + simulated transport; handler explores the read interfaces",
-        scens: vec![s("readers", d2::c09, 90_000, 3_000_000), s("duplex_handlers", d2::c10, 30_000, 1_000_000)],
+        scens: vec![s("readers", d2::c09, 90_000, 3_000_000), s("duplex_handlers", d2::c10, 30_000, 1_000_000), s("hand_built_request", d2::c09_direct, 30_000, 1_000_000)],
         rule: "each run = one connection whose handler issues a chooser-driven sequence of poll_read(len 0..70000) / poll_fill_buf+consume(k) / set_stream / writeable() calls, samples is_writeable() after every poll and probes output_stream()/set_stream() rejections under catch_unwind, while the transport returns 1..n bytes or Pending and management records arrive mid-stream with the write side accepting 1..n bytes or Pending; bytes received per stream compared with M-stream; distinct = distinct (skeleton, digest)",
         assumptions: vec!["compliant client (streams in role order)"],
         real: REAL_ASYNC.to_vec(), stub: STUB_ASYNC.to_vec(),
